@@ -71,6 +71,7 @@ func worker(args []string) {
 	debug.SetMaxStack(256 << 20)
 	c := run.NewCtx(id, tier, *seed, *shard, *nshards)
 	c.SkipTo, c.DumpSeq = *skip, *dump
+	c.OutPath = *out
 	if *dump < 0 {
 		if *journal != "" {
 			if err := c.OpenJournal(*journal); err != nil {
@@ -78,7 +79,7 @@ func worker(args []string) {
 				os.Exit(2)
 			}
 		}
-		c.Watchdog(240*time.Second, 3<<30)
+		c.Watchdog(90*time.Second, 3<<30)
 	}
 	p.Body(c)
 	if *dump >= 0 {
@@ -110,7 +111,7 @@ func replay(path string) int {
 	}
 	c := run.NewCtx(v.Property, tier, v.Seed, 0, 1)
 	c.Replay = true
-	c.Watchdog(240*time.Second, 3<<30)
+	c.Watchdog(90*time.Second, 3<<30)
 	f, err := run.ReplayCase(c, v.Kind, v.Case)
 	if err != nil {
 		fmt.Println(err)
